@@ -205,4 +205,33 @@ def replay(args):
                         "got": r.tolist(), "want": ref.tolist()}
             if not np.array_equal(x, WHOLE.astype(dt)):
                 return {"sig": None, "kind": kind, "what": "apply modified the caller's integer array"}
+    # equal VALUES in two number types, one straight after the other: what apply returns for the single-precision array does not depend
+    # on whether the double-precision twin (or anything else) was applied just before - compared bit for bit with a fresh transform
+    x32 = (WHOLE.astype(float) * 0.7 + WHOLE.astype(float).mean(axis=0) * 0.3 + 0.013).astype(np.float32)
+    x64 = x32.astype(np.float64)
+
+    def _out(tr, x):
+        try:
+            return ("value", np.asarray(tr.apply(x)))
+        except Exception as ex:
+            from ..core import from_library
+
+            if not from_library(ex):
+                raise
+            pf = getattr(ex, "points_outside_source_domain", None)
+            return (type(ex).__name__, None if pf is None else np.asarray(pf))
+
+    def _same(a, b):
+        return a[0] == b[0] and ((a[1] is None and b[1] is None) or (a[1] is not None and b[1] is not None and a[1].dtype == b[1].dtype
+                                                                     and np.array_equal(a[1], b[1])))
+
+    fresh32 = _out(make(kind), x32)
+    _out(t, x64)
+    after_twin = _out(t, x32)
+    _out(t, WHOLE.astype(float))
+    after_other = _out(t, x32)
+    if not _same(after_twin, fresh32) or not _same(after_other, fresh32):
+        return {"sig": None, "kind": kind, "what": "apply on a float32 array depends on what was applied before it (the same values as float64 / other points): "
+                "not bit-identical to a fresh transform of the same definition",
+                "got": [after_twin[0], after_other[0]], "want": fresh32[0]}
     return None
